@@ -66,6 +66,7 @@ func (q *Cut) Run() *Witness {
 		prev int
 	}
 	var nodes []node
+	helperMemo := map[*ssa.Function]bool{}
 	seen := map[pt]bool{}
 	push := func(p pt, prev int) {
 		if seen[p] {
@@ -100,6 +101,12 @@ func (q *Cut) Run() *Witness {
 			in := b.Instrs[i]
 			if q.Barrier != nil {
 				if q.Barrier(in) {
+					stopped = true
+					break
+				}
+				// a private helper of this function that passes the barrier on every path counts as the barrier
+				// (extract-method must not hide a guard or an effect)
+				if cl, ok := in.(*ssa.Call); ok && helperPassesBarrier(q, cl, helperMemo) {
 					stopped = true
 					break
 				}
@@ -428,4 +435,40 @@ func edgeSuccs(fn *ssa.Function, r Rel) []*ssa.BasicBlock {
 		}
 	}
 	return out
+}
+
+// helperPassesBarrier: cl calls an unexported function of the same package whose every call site lies in q.Fn's
+// root function, and every path through that helper passes the barrier.
+func helperPassesBarrier(q *Cut, cl *ssa.Call, memo map[*ssa.Function]bool) bool {
+	g := cl.Call.StaticCallee()
+	if g == nil || g.Blocks == nil || gProg == nil || g == q.Fn {
+		return false
+	}
+	if v, ok := memo[g]; ok {
+		return v
+	}
+	memo[g] = false
+	obj := funcObj(g)
+	root := rootFn(q.Fn)
+	if obj == nil || obj.Exported() || g.Parent() != nil || funcPkgPath(g) != funcPkgPath(root) {
+		return false
+	}
+	for _, cs := range gProg.CallSites(obj) {
+		if cs.Kind == "value" || cs.Kind == "invoke" || rootFn(cs.Fn) != root {
+			return false
+		}
+	}
+	has := false
+	eachInstr(g, func(in ssa.Instruction) {
+		if q.Barrier(in) {
+			has = true
+		}
+	})
+	if !has {
+		return false
+	}
+	sub := &Cut{Fn: g, Target: isReturn, Barrier: q.Barrier}
+	ok := sub.Run() == nil
+	memo[g] = ok
+	return ok
 }
